@@ -148,7 +148,7 @@ def _algebra_case(draw, tier):
 
 def strategy(tier):
     scen = sampling.scenario_strategy(tier).map(lambda c: dict(c, case="scenario"))
-    return st.one_of(scen, scen, scen, scen, _algebra_case(tier), _algebra_case(tier), _data_case())
+    return geo.weighted((4, scen), (2, _algebra_case(tier)), (1, _data_case()))
 
 
 # ------------------------------------------------------------------ algebra execution ------
